@@ -27,6 +27,11 @@ EXTRAS = [
     {"sql": "merge into t using (select k, v from s1 union select k, v from s2) q on t.k = q.k when matched then update set t.v = q.v when not matched then insert (k, v) values (q.k, q.v)", "dialect": "ansi", "metadata": None},
     {"sql": "insert into t select k from db.a join db.b on a.i = b.i", "dialect": "ansi", "metadata": {"db.a": ["k", "i"], "db.b": ["k", "i"]}},
     {"sql": "update t set a = s.a, b = s.b, c = u.c from s, u where t.k = s.k", "dialect": "ansi", "metadata": None},
+    # one CTE referenced under different aliases in different scopes, an alias of one scope naming another CTE elsewhere
+    {"sql": "insert into t with w1 as (select a, b from s1), w2 as (select a as c from w1) select m.c as o from w2 m union all select m.b as o from w2 k left join w1 m on k.x = m.x", "dialect": "ansi", "metadata": None},
+    {"sql": "insert into t with w1 as (select a, b from s1), w2 as (select a as c from w1) (select m.c as o from w2 m join w2 n on m.k = n.k) except (select n.b as o from w2 m left join w1 n on m.x = n.x)", "dialect": "ansi", "metadata": None},
+    {"sql": "create table t as select m.c as o from (select c from s2) m where m.c in (select m.b from s1 k join (select c as b from s2) m on k.x = m.x)", "dialect": "ansi", "metadata": None},
+    {"sql": "insert into t select x.a from ta x join tb y on x.k = y.k union all select y.a from ta y join tb x on x.k = y.k", "dialect": "ansi", "metadata": None},
     # alias-less derived tables (their generated names carry a hash) sharing a column name under an unqualified star
     {"sql": "insert into tgt select * from (select id, x from t1) join (select id, y from t2) using (id)", "dialect": "sparksql", "metadata": None},
     {"sql": "insert into tgt select * from (select id, x from t1) join (select id, y from t2) using (id) join (select id, z from t3) using (id)", "dialect": "sparksql", "metadata": None},
